@@ -1,11 +1,11 @@
 SPECIFICATION Spec
 CONSTANTS Callers = {c1, c2}
- MaxTick = 3
- MaxRot = 2
- MaxAtt = 3
- FreshKey = TRUE
+ MaxTick = 2
+ MaxRot = 1
+ MaxAtt = 2
+ FreshKey = FALSE
  MaxJunk = 0
- Kinds = {"obj"}
+ Kinds = {"obj", "vec"}
  Dev = {}
 INVARIANTS WireIdsIncrease SeqNoRules OwnResult TypedVector LoopAlive AcceptedNeverResent SaltPersisted NoStallNotify NoStallDeliver AckedAll
 PROPERTIES AllDone LoopKeepsReading
